@@ -267,7 +267,91 @@ def query_interference_scenario(rng, mat, stats):
             "poison": rng.choice([0, 1, 7]), "poison_seed": rng.below(1 << 30)}
 
 
-def gen_history(rng, mat, stats, ring_growth=False, beam_carry=False):
+DEGENERATE_KINDS = ("empty", "subframe", "fewframes", "noresult", "refused-start", "buffered-only", "empty-with-query")
+
+
+def degenerate_utt(rng, mat, stats, kind):
+    """one degenerate / refused / no-result utterance of the given kind (see degenerate_history_scenario)"""
+    names = [x["name"] for x in mat["audio"]]
+    a = rng.choice([i for i, nm in enumerate(names) if nm != "goforward_x3"])
+    n = mat["audio"][a]["n"]
+    u = {"a": a, "off": 0, "len": 0, "mode": "stream", "fmt": rng.choice(["i", "i", "f"]), "partial": [], "flags": rng.choice([0, 1, 3]),
+         "chunks": [], "chunking": "degenerate:" + kind, "nosearch": [], "degenerate": kind}
+    if kind in ("empty", "empty-with-query"):
+        # decoder_start_utt directly followed by decoder_end_utt: zero samples, zero frames
+        if kind == "empty-with-query":
+            u["flags"] = 3
+    elif kind == "subframe":
+        # some samples, never a complete analysis window: zero frames
+        u["len"] = rng.range(1, FRAME_SIZE - 1)
+        k = rng.range(1, min(3, u["len"]))
+        cuts = sorted({rng.range(1, u["len"]) for _ in range(k - 1)} | {u["len"]})
+        u["chunks"] = [b - a_ for a_, b in zip([0] + cuts[:-1], cuts)]
+    elif kind == "fewframes":
+        # 1-8 frames: searched, normally without any hypothesis
+        u["len"] = FRAME_SIZE + rng.below(8) * FRAME_SHIFT + rng.below(FRAME_SHIFT)
+        u["chunks"] = [u["len"]]
+    elif kind == "noresult":
+        # a short cut of a recording (the grammar cannot be completed): frames searched, no final result
+        u["len"] = min(n, rng.choice([1000, 2000, 3000, 5000]))
+        u["off"] = rng.below(n - u["len"] + 1)
+        u["chunks"], _ = gen_chunks(rng, u["len"], stats, force=rng.choice(["fixed", "random", "whole"]))
+    elif kind == "refused-start":
+        # an utterance inside which decoder_start_utt is called again (refused with -1, must change nothing)
+        u["len"] = min(n, rng.choice([0, 300, 4000, 12000, n]))
+        u["chunks"], _ = gen_chunks(rng, u["len"], stats, force="fixed") if u["len"] else ([], None)
+        u["refused_start"] = sorted({rng.choice([-1] + list(range(len(u["chunks"])))) for _ in range(rng.range(1, 2))})
+    elif kind == "buffered-only":
+        # every call with no_search = 1: no frame is searched before decoder_end_utt
+        u["len"] = min(n, rng.choice([FRAME_SIZE, 2000, 8000]))
+        u["chunks"], _ = gen_chunks(rng, u["len"], stats, force="fixed")
+        u["mode"] = "buffered"
+    u["nosearch"] = [1 if u["mode"] == "buffered" else 0] * len(u["chunks"])
+    stats["modes"][u["mode"]] = stats["modes"].get(u["mode"], 0) + 1
+    return u
+
+
+def degenerate_history_scenario(rng, mat, stats):
+    """error / recovery paths: BEFORE the judged utterance the decoder goes through degenerate utterances — no samples at all
+    (start_utt directly followed by end_utt), fewer samples than one analysis window, a handful of frames, an utterance
+    without a result, an utterance inside which decoder_start_utt is called again (refused), one fed with no_search only —
+    and the grammar is NOT set again before the judged utterance (a new search module would hide what the degenerate
+    utterance left in the old one).  Oracle: the judged utterance equals a fresh decoder's, as for every history."""
+    cfg = rng.weighted([("batchcmn", 5), ("livecmn", 3), ("allsen", 1), ("narrow", 1), ("maxhmm", 1), ("ds2", 1)])
+    stats["configs"][cfg] = stats["configs"].get(cfg, 0) + 1
+    g = gen_gram(rng, mat, stats)
+    items = [{"op": "gram", "g": g}]
+    if rng.chance(0.5):
+        items.append({"op": "utt", "utt": gen_utt(rng, mat, stats)})
+    dk = stats.setdefault("degenerate_kinds", {})
+    for _ in range(rng.range(1, 3)):
+        kind = rng.weighted([("empty", 4), ("empty-with-query", 1), ("subframe", 2), ("fewframes", 1), ("noresult", 2),
+                             ("refused-start", 2), ("buffered-only", 1)])
+        dk[kind] = dk.get(kind, 0) + 1
+        items.append({"op": "utt", "utt": degenerate_utt(rng, mat, stats, kind)})
+        if rng.chance(0.15):
+            items.append({"op": "getcmn", "upd": 0})
+    tutt = gen_utt(rng, mat, stats, target=True)
+    if tutt["len"] < 8000 and rng.chance(0.8):
+        # mostly a whole recording as the judged utterance: a lost hypothesis shows
+        n = mat["audio"][tutt["a"]]["n"]
+        tutt["off"], tutt["len"] = 0, min(n, MAXCHUNK)
+        if tutt["mode"] == "batch":
+            tutt["chunks"] = [tutt["len"]]
+        else:
+            tutt["chunks"], tutt["chunking"] = gen_chunks(rng, tutt["len"], stats)
+        tutt["nosearch"] = [1 if tutt["mode"] == "buffered" else 0] * len(tutt["chunks"])
+        tutt["partial"] = []
+    tutt["flags"] = 3 if rng.chance(0.5) else 1
+    batch_free = cfg != "livecmn" and tutt["mode"] == "batch" and rng.chance(0.5)
+    stats["degenerate_scenarios"] = stats.get("degenerate_scenarios", 0) + 1
+    return {"cfg": cfg, "items": items, "target": {"g": g, "cmn": rng.choice(CMN_TEXTS), "utt": tutt, "no_cmn_reset": batch_free},
+            "poison": rng.choice([0, 0, 1, 7]), "poison_seed": rng.below(1 << 30)}
+
+
+def gen_history(rng, mat, stats, ring_growth=False, beam_carry=False, degenerate=False):
+    if degenerate or rng.chance(0.08):
+        return degenerate_history_scenario(rng, mat, stats)
     if beam_carry or rng.chance(0.06):
         return beam_carry_scenario(rng, mat, stats)
     h = gen_history_plain(rng, mat, stats)
@@ -330,13 +414,19 @@ def utt_ops(d, utt, poison=0, pseed=0, strip_partial=False):
     if poison:
         ops.append(f"poison {d} {pseed} {poison}")
     pos = utt["off"]
+    refused = utt.get("refused_start", [])      # degenerate family: decoder_start_utt inside the utterance (refused, -1)
+    if -1 in refused:
+        ops.append(f"start {d}")
     for i, ln in enumerate(utt["chunks"]):
         full = 1 if utt["mode"] == "batch" else 0
         ops.append(f"proc {d} {utt['a']} {pos} {ln} {utt['nosearch'][i]} {full} {utt['fmt']}")
         pos += ln
         if i in utt["partial"] and not strip_partial:
             ops.append(f"result {d} {utt.get('pflags', {}).get(str(i), 0)}")
-    ops += [f"end {d}", f"result {d} {utt['flags']}"]
+        if i in refused:
+            ops.append(f"start {d}")
+    # `rest`: read-back of the cells that rest at a canonical value between utterances (model: restCells, constW of endUtt*)
+    ops += [f"end {d}", f"rest {d}", f"result {d} {utt['flags']}"]
     return ops
 
 
@@ -416,7 +506,7 @@ def first_diff(a, b):
 def reset_failures(run):
     bad = []
     for r in run["recs"]:
-        if r["cmd"].startswith("chk"):
+        if r["cmd"].startswith(("chk", "rest")):
             bad += [l for l in r["out"] if l.startswith("R ") and " BAD " in l]
     return bad
 
@@ -472,7 +562,8 @@ def phase_trace(recs, live_cmn):
         elif w[0] == "getcmn":
             line = "op getCmnUpdate" if w[2] == "1" else "op getCmn"
         elif w[0] == "start":
-            fed = 0
+            if rv == "0":               # a refused decoder_start_utt (utterance already started) is not a protocol step
+                fed = 0
             line = "op startUtt" if rv == "0" else None
         elif w[0] == "end":
             line = f"op endUtt {fed}" if rv == "0" else None
@@ -677,7 +768,11 @@ def judge_history(c, binp, mat, h, tables, stats, label, pre):
             return judge_history(c, binp, mat, without_alignment(h), tables, stats, label, pre)
         return {"kind": "crash", "exit_code": which["rc"], "stderr_tail": which["err"][-1500:],
                 "last_command": which["recs"][-1]["cmd"] if which["recs"] else None,
-                "ops": hops if crashed(rh) else fops}
+                "ops": hops if crashed(rh) else fops,
+                # the decoder with the history aborts (assert / sanitizer) where a fresh decoder given the same configuration,
+                # grammar, CMN text and audio completes: the k-th utterance does not equal the fresh decoder's — a concrete input
+                "history_decoder_aborts_fresh_decoder_completes": bool(crashed(rh) and not crashed(rf)),
+                "fresh_ops": fops}
     bad = reset_failures(rh) + reset_failures(rf)
     a, b = section(rh, hmark), section(rf, fmark)
     # the R lines themselves are bookkeeping of oracle (a); the property is judged on everything else
@@ -1014,7 +1109,7 @@ def check(c):
     distinct, ok = set(), True
     for i in range(nhist):
         h = query_interference_scenario(rng, mat, stats) if i % 8 == 2 else \
-            gen_history(rng, mat, stats, ring_growth=(i % 8 == 0), beam_carry=(i % 8 == 4))
+            gen_history(rng, mat, stats, ring_growth=(i % 8 == 0), beam_carry=(i % 8 == 4), degenerate=(i % 8 in (1, 6)))
         distinct.add(json.dumps(h, sort_keys=True))
         if i < 2:
             c.samples.append({"config": h["cfg"], "history": [it["op"] + (":" + it["utt"]["mode"] if it["op"] == "utt" else "") for it in h["items"]],
@@ -1166,7 +1261,8 @@ def report(c, res, h, mat, label, stats=None):
     # poisoning / canonical-value / write-set failures show that the classification is wrong for the implementation, which is a
     # broken tie; only a difference produced by a real history is the property failing on a concrete input
     found_input = res["kind"] in ("kth-utterance-differs-from-fresh-decoder", "two-decoders-interfere",
-                                  "query-changes-the-utterance-result")
+                                  "query-changes-the-utterance-result") or \
+        (res["kind"] == "crash" and bool(res.get("history_decoder_aborts_fresh_decoder_completes")))
     obj = dict(res)
     obj["label"] = label
     if h is not None:
